@@ -85,6 +85,7 @@ def session(kind='ebgp4'):
         'ebgp2': dict(local_as=65000, peer_as=65001, asn4=False),
         'ibgp2': dict(local_as=65000, peer_as=65000, asn4=False),
     }
+    kinds['ibgp4'] = kinds['ibgp4'] if 'ibgp4' in kinds else dict(local_as=65000, peer_as=65000, asn4=True)
     k = kinds[kind]
     nb = neighbor(local_as=k['local_as'], peer_as=k['peer_as'], capability='' if k['asn4'] else 'asn4 disable;')
     body = peer_open_bytes(k['peer_as'], 180, '9.9.9.9', std_caps(k['peer_as'], asn4=k['asn4']))
